@@ -60,6 +60,9 @@ type Case struct {
 	// Late are Headers() calls made after all requests have been served once;
 	// the requests are then served again.
 	Late []LateHeaders `json:"headers_after_serving,omitempty"`
+	// CutPairs: the requests hold pairs that cut one comma list differently
+	// between two constrained headers (for the class table only).
+	CutPairs bool `json:"comma_list_cut_differently,omitempty"`
 }
 
 type LateHeaders struct {
@@ -103,7 +106,7 @@ func checkCase(c Case) (out evid.Outcome) {
 	notFound := false
 	f.NotFound(func(ctx flamego.Context) { notFound = true; ctx.ResponseWriter().WriteHeader(404) })
 	handles := make([]*flamego.Route, len(c.Regs))
-	cur := -1
+	cur, declared := -1, -1
 	regErr := func() (err interface{}) {
 		defer func() { err = recover() }()
 		for i, g := range c.Regs {
@@ -137,6 +140,7 @@ func checkCase(c Case) (out evid.Outcome) {
 			case g.Via == "any":
 				r = f.Any(g.R, h)
 			}
+			declared = i // (the route itself has been taken: a panic from here on is not about its method)
 			for _, hs := range g.Headers {
 				r.Headers(hs...)
 			}
@@ -144,7 +148,7 @@ func checkCase(c Case) (out evid.Outcome) {
 		}
 		return nil
 	}()
-	if regErr != nil && cur >= 0 && (c.Regs[cur].Via == "routes-lower" || c.Regs[cur].Via == "route:get") {
+	if regErr != nil && cur >= 0 && declared < cur && (c.Regs[cur].Via == "routes-lower" || c.Regs[cur].Via == "route:get") {
 		// a method name in another spelling than the standard upper-case one: that
 		// the router takes it is not part of any statement
 		out.Excluded = out.Sub
@@ -154,6 +158,9 @@ func checkCase(c Case) (out evid.Outcome) {
 	if regErr != nil {
 		// every route of a case is one the statement of C08 obliges the router to accept
 		return evid.Fail("registration-panic", "registration panicked: %v; routes %s", regErr, js(c.Regs))
+	}
+	if c.CutPairs {
+		out.Classes = append(out.Classes, "comma-list-cut-differently")
 	}
 	nogate := func(*model.MRoute, model.Form, http.Header) bool { return true }
 	for pass := 0; pass < 2; pass++ {
@@ -356,6 +363,7 @@ func genCase(t *rapid.T) Case {
 	// two requests that differ only in where a comma-separated list is cut
 	// between two constrained headers ("a,b" + "c" against "a" + "b,c"): each
 	// header's own value decides, not what the values look like side by side
+	cutPairs := false
 	for ri, g := range c.Regs {
 		if len(g.Headers) == 0 || rapid.IntRange(0, 1).Draw(t, "shift") != 0 {
 			continue
@@ -377,6 +385,7 @@ func genCase(t *rapid.T) Case {
 			a, b = b, a
 		}
 		reqs = append(reqs, a, b)
+		cutPairs = true
 	}
 	// a constrained header may be repeated; only repetitions whose verdict does
 	// not depend on which of the values counts - the first, the last, any, or
@@ -416,6 +425,7 @@ func genCase(t *rapid.T) Case {
 		}
 	}
 	c.Reqs = reqs
+	c.CutPairs = cutPairs
 	return c
 }
 
